@@ -216,7 +216,11 @@ fn hmc_case(ctx: &Ctx, n: usize, seed: Option<u64>) {
 /// The library's own seedable proposal: different seeds give different noise, the same seed the same noise.
 fn proposal_seeding(ctx: &Ctx) {
     use mini_mcmc::distributions::IsotropicGaussian;
-    let seeds: Vec<u64> = vec![0, 1, 2, 3, 41, 42, 1 << 32, 1 << 63, u64::MAX - 1, u64::MAX];
+    // small and extreme seeds, plus every single-bit flip of 42
+    let mut seeds: Vec<u64> = vec![0, 1, 2, 3, 41, 42, 1 << 32, 1 << 63, u64::MAX - 1, u64::MAX];
+    seeds.extend((0..64).map(|b| 42u64 ^ (1u64 << b)));
+    seeds.sort();
+    seeds.dedup();
     let draws: Vec<Vec<u64>> = seeds.iter().map(|s| IsotropicGaussian::<f64>::new(1.0).set_seed(*s).sample(&[0.0, 0.0, 0.0]).iter().map(|x| x.to_bits()).collect()).collect();
     ctx.evals(1);
     ctx.transitions(seeds.len() as u64);
